@@ -326,4 +326,265 @@ theorem replace_rejected_unchanged_any (s : TdfSt) (b : BlkArg) (c : Option Str)
         rw [hok] at h
         cases h
 
+/-! ### an invariant of histories on foreign tables (table level) -/
+
+/-- well-formed, and every unused slot points behind the jump table and behind all live data (C09's convention "unused slots carry
+    the end-of-data offset", weakened to what `add_block` needs) -/
+def ForeignInv (n flen : Nat) (es : List Entry) : Prop :=
+  WFTable n flen es ∧ ∀ u ∈ es, u.typ = 0 → (64 + 288 * n : Int) ≤ u.off ∧ ∀ e ∈ liveOf es, e.off + e.size ≤ u.off
+
+instance (n flen : Nat) (es : List Entry) : Decidable (ForeignInv n flen es) := by unfold ForeignInv; infer_instance
+
+theorem foldl_max_ge (l : List Entry) (m : Int) :
+    m ≤ l.foldl (fun m e => max m (e.off + e.size)) m ∧ ∀ e ∈ l, e.off + e.size ≤ l.foldl (fun m e => max m (e.off + e.size)) m := by
+  induction l generalizing m with
+  | nil => simp
+  | cons x xs ih =>
+    simp only [List.foldl_cons]
+    have h := ih (max m (x.off + x.size))
+    refine ⟨by omega, ?_⟩
+    intro e he
+    rcases List.mem_cons.mp he with rfl | he
+    · omega
+    · exact h.2 e he
+
+theorem dataEnd_ge (es : List Entry) (n : Nat) :
+    (64 + 288 * n : Int) ≤ dataEnd es n ∧ ∀ e ∈ liveOf es, e.off + e.size ≤ dataEnd es n := by
+  unfold dataEnd
+  exact foldl_max_ge (liveOf es) _
+
+theorem remove_keeps_foreignInv (n flen : Nat) (pre post : List Entry) (old : Entry) (now : Int) (c : Str)
+    (hlive : old.typ ≠ 0) (hinv : ForeignInv n flen (pre ++ old :: post)) :
+    ForeignInv n (flen - old.size.toNat)
+      ((pre ++ post).map (shiftAfter old) ++ [⟨0, 0, dataEnd ((pre ++ post).map (shiftAfter old)) n, 0, now, now, now, c⟩]) := by
+  obtain ⟨hwf, hun⟩ := hinv
+  refine ⟨remove_keeps_table_wf n flen pre post old _ hlive ⟨rfl, rfl⟩ hwf, ?_⟩
+  obtain ⟨hrange, hpair, _⟩ := hwf
+  have hl : liveOf (pre ++ old :: post) = liveOf pre ++ old :: liveOf post := by
+    simp [liveOf, List.filter_append, hlive]
+  have hold := hrange old (by rw [hl]; simp)
+  have hmem : ∀ y ∈ liveOf pre ++ liveOf post, y ∈ liveOf (pre ++ old :: post) := by
+    intro y hy; rw [hl]
+    rcases List.mem_append.mp hy with h | h
+    · exact List.mem_append.mpr (Or.inl h)
+    · exact List.mem_append.mpr (Or.inr (List.mem_cons_of_mem _ h))
+  have hdis : ∀ x ∈ liveOf pre ++ liveOf post, Disjoint2 old x := by
+    intro x hx
+    rw [hl, List.pairwise_append] at hpair
+    obtain ⟨_, h2, h3⟩ := hpair
+    rcases List.mem_append.mp hx with hx | hx
+    · exact (h3 x hx old (by simp)).symm
+    · exact (List.pairwise_cons.mp h2).1 x hx
+  have hnewlive : liveOf ((pre ++ post).map (shiftAfter old) ++ [(⟨0, 0, dataEnd ((pre ++ post).map (shiftAfter old)) n, 0, now, now, now, c⟩ : Entry)])
+      = (liveOf pre ++ liveOf post).map (shiftAfter old) := by
+    have h1 : ∀ (l : List Entry) (f : Entry), f.typ = 0 → liveOf (l ++ [f]) = liveOf l := by
+      intro l f hf; simp [liveOf, List.filter_append, hf]
+    rw [h1 _ _ rfl, liveOf_map_shift]
+    simp [liveOf, List.filter_append]
+  intro u hu hut
+  rcases List.mem_append.mp hu with hu | hu
+  · obtain ⟨x, hx, rfl⟩ := List.mem_map.mp hu
+    rw [shiftAfter_typ] at hut
+    have hxin : x ∈ pre ++ old :: post := by
+      rcases List.mem_append.mp hx with h | h
+      · exact List.mem_append.mpr (Or.inl h)
+      · exact List.mem_append.mpr (Or.inr (List.mem_cons_of_mem _ h))
+    obtain ⟨hx1, hx2⟩ := hun x hxin hut
+    have holdx := hx2 old (by rw [hl]; simp)
+    refine ⟨?_, ?_⟩
+    · unfold shiftAfter; split <;> first | omega | (simp only; omega)
+    · intro e he
+      rw [hnewlive] at he
+      obtain ⟨y, hy, rfl⟩ := List.mem_map.mp he
+      have hyx := hx2 y (hmem y hy)
+      have hyr := hrange y (hmem y hy)
+      have hd := hdis y hy
+      unfold Disjoint2 at hd
+      unfold shiftAfter
+      split <;> split <;> first | omega | (simp only; omega)
+  · have hu' := List.mem_singleton.mp hu
+    subst hu'
+    have hge := dataEnd_ge ((pre ++ post).map (shiftAfter old)) n
+    refine ⟨hge.1, ?_⟩
+    intro e he
+    rw [hnewlive] at he
+    show e.off + e.size ≤ dataEnd ((pre ++ post).map (shiftAfter old)) n
+    apply hge.2
+    rw [liveOf_map_shift]
+    simpa [liveOf, List.filter_append] using he
+
+theorem add_keeps_foreignInv (n flen : Nat) (pre post : List Entry) (slot new : Entry)
+    (hslot : slot.typ = 0) (hpre : ∀ e ∈ pre, e.typ ≠ 0) (hpost : ∀ e ∈ post, e.typ = 0)
+    (hnew : new.typ ≠ 0) (hoff : new.off = slot.off) (hsz : 0 ≤ new.size)
+    (hinv : ForeignInv n flen (pre ++ slot :: post)) :
+    ForeignInv n (max flen (new.off + new.size).toNat) (pre ++ new :: post.map (fun x => { x with off := slot.off + new.size })) := by
+  obtain ⟨hwf, hun⟩ := hinv
+  obtain ⟨hs1, hs2⟩ := hun slot (by simp) hslot
+  refine ⟨add_keeps_table_wf n flen pre post slot new _ hslot hnew hoff hsz hpost hs1 hs2 hwf, ?_⟩
+  have hprelive : liveOf pre = pre := List.filter_eq_self.mpr (by intro e he; simp [hpre e he])
+  have hpostlive' : liveOf (post.map (fun x => { x with off := slot.off + new.size })) = [] := by
+    apply List.filter_eq_nil_iff.mpr
+    intro e he
+    obtain ⟨x, hx, rfl⟩ := List.mem_map.mp he
+    simp [hpost x hx]
+  have hl' : liveOf (pre ++ new :: post.map (fun x => { x with off := slot.off + new.size })) = pre ++ [new] := by
+    have : liveOf (pre ++ new :: post.map (fun x => { x with off := slot.off + new.size }))
+        = liveOf pre ++ (new :: liveOf (post.map (fun x => { x with off := slot.off + new.size }))) := by
+      simp [liveOf, List.filter_append, hnew]
+    rw [this, hprelive, hpostlive']
+  have hlold : ∀ e ∈ pre, e ∈ liveOf (pre ++ slot :: post) := by
+    intro e he
+    simp only [liveOf, List.filter_append, List.mem_append, List.mem_filter]
+    exact Or.inl ⟨he, by simp [hpre e he]⟩
+  intro u hu hut
+  rcases List.mem_append.mp hu with hu | hu
+  · exact absurd hut (hpre u hu)
+  · rcases List.mem_cons.mp hu with rfl | hu
+    · exact absurd hut hnew
+    · obtain ⟨x, hx, rfl⟩ := List.mem_map.mp hu
+      refine ⟨by simp only; omega, ?_⟩
+      intro e he
+      rw [hl'] at he
+      rcases List.mem_append.mp he with he | he
+      · have := hs2 e (hlold e he)
+        simp only; omega
+      · simp at he; subst he
+        simp only; omega
+
+theorem findIdxBy_before (p : Entry → Bool) (es : List Entry) (i : Nat) (h : findIdxBy p es = some i) :
+    ∀ e ∈ es.take i, p e = false := by
+  induction es generalizing i with
+  | nil => simp [findIdxBy] at h
+  | cons x xs ih =>
+    unfold findIdxBy at h
+    by_cases hx : p x = true
+    · simp only [hx, if_true, Option.some.injEq] at h
+      subst h; simp
+    · simp only [hx, Bool.false_eq_true, if_false] at h
+      cases hf : findIdxBy p xs with
+      | none => simp [hf] at h
+      | some j =>
+        simp only [hf, Option.map_some, Option.some.injEq] at h
+        subst h
+        intro e he
+        simp only [List.take_succ_cons, List.mem_cons] at he
+        rcases he with rfl | he
+        · simpa using hx
+        · exact ih j hf e he
+
+/-- one accepted or refused `remove_block` keeps the invariant (any table) -/
+theorem foreign_remove_step (s : TdfSt) (t : Nat) (now : Int) (flen : Nat) (ht : t ≠ 0)
+    (hinv : ForeignInv s.nEntries flen s.entries) :
+    ∃ flen', ForeignInv (removeBlock s t now).1.nEntries flen' (removeBlock s t now).1.entries := by
+  cases hfind : findType t s.entries with
+  | none =>
+    have : (removeBlock s t now).1 = s := by unfold removeBlock; simp [hfind]
+    rw [this]; exact ⟨flen, hinv⟩
+  | some pos =>
+    have hn : (removeBlock s t now).1.nEntries = s.nEntries := by unfold removeBlock; simp [hfind]
+    rw [hn, removeBlock_entries s t now pos hfind]
+    obtain ⟨e, h1, h2, h3⟩ := findIdxBy_some _ _ _ hfind
+    have hget : s.entries.getD pos unusedEntry = e := by simp [List.getD_eq_getElem?_getD, h1]
+    rw [hget]
+    have hlive : e.typ ≠ 0 := by
+      have : e.typ = t := by simpa using h2
+      rw [this]; exact ht
+    rw [h3] at hinv
+    exact ⟨_, remove_keeps_foreignInv _ _ _ _ e now defaultComment hlive hinv⟩
+
+/-- one accepted or refused `add_block` keeps the invariant (any table) -/
+theorem foreign_add_step (s : TdfSt) (b : BlkArg) (c : Str) (now : Int) (flen : Nat) (hty : b.typ ≠ 0)
+    (hinv : ForeignInv s.nEntries flen s.entries) :
+    ∃ flen', ForeignInv (addBlock s b c now).1.nEntries flen' (addBlock s b c now).1.entries := by
+  by_cases hd : hasType b.typ s.entries = true
+  · have : (addBlock s b c now).1 = s := by unfold addBlock; simp [hd]
+    rw [this]; exact ⟨flen, hinv⟩
+  · have hd' : hasType b.typ s.entries = false := by simpa using hd
+    cases hf : firstUnused s.entries with
+    | none =>
+      have : (addBlock s b c now).1 = s := by unfold addBlock; simp [hd', hf]
+      rw [this]; exact ⟨flen, hinv⟩
+    | some pos =>
+      cases hchk : checkArg b c now with
+      | error e =>
+        have : (addBlock s b c now).1 = s := by unfold addBlock; simp [hd', hf, hchk]
+        rw [this]; exact ⟨flen, hinv⟩
+      | ok pl =>
+        by_cases hh : (s.entries.drop (pos + 1)).any (fun e => e.typ != 0) = true
+        · have : (addBlock s b c now).1 = s := by unfold addBlock; simp [hd', hf, hchk, hh]
+          rw [this]; exact ⟨flen, hinv⟩
+        · have hh' : (s.entries.drop (pos + 1)).any (fun e => e.typ != 0) = false := by simpa using hh
+          have hn : (addBlock s b c now).1.nEntries = s.nEntries := by unfold addBlock; simp [hd', hf, hchk, hh']
+          rw [hn, addBlock_entries s b c now pos pl hd' hf hchk hh']
+          obtain ⟨slot, h1, h2, h3⟩ := findIdxBy_some _ _ _ hf
+          have hget : s.entries.getD pos unusedEntry = slot := by simp [List.getD_eq_getElem?_getD, h1]
+          rw [hget]
+          have hslot : slot.typ = 0 := by simpa using h2
+          have hpre : ∀ e ∈ s.entries.take pos, e.typ ≠ 0 := by
+            intro e he
+            have := findIdxBy_before _ _ _ hf e he
+            simpa using this
+          have hpost : ∀ e ∈ s.entries.drop (pos + 1), e.typ = 0 := by
+            intro e he
+            have := List.any_eq_false.mp hh' e he
+            simpa using this
+          rw [h3] at hinv
+          exact ⟨_, add_keeps_foreignInv _ _ _ _ slot ⟨b.typ, b.fmt, slot.off, b.size, b.cdate, b.mdate, now, c⟩ hslot hpre hpost hty rfl
+            (Int.natCast_nonneg _) hinv⟩
+
+theorem foreign_replace_step (s : TdfSt) (b : BlkArg) (c : Option Str) (now : Int) (flen : Nat) (hty : b.typ ≠ 0)
+    (hinv : ForeignInv s.nEntries flen s.entries) :
+    ∃ flen', ForeignInv (replaceBlock s b c now).1.nEntries flen' (replaceBlock s b c now).1.entries := by
+  unfold replaceBlock
+  cases hfind : s.entries.find? (fun e => e.typ == b.typ) with
+  | none => exact ⟨flen, hinv⟩
+  | some old =>
+    simp only
+    cases hchk : checkArg b (c.getD old.comment) now with
+    | error e => exact ⟨flen, hinv⟩
+    | ok pl =>
+      simp only
+      split
+      · exact ⟨flen, hinv⟩
+      · obtain ⟨f1, h1⟩ := foreign_remove_step s b.typ now flen hty hinv
+        cases hr : removeBlock s b.typ now with
+        | mk s1 o =>
+          rw [hr] at h1
+          cases o with
+          | ok => exact foreign_add_step s1 b (c.getD old.comment) now f1 hty h1
+          | err e => exact ⟨f1, h1⟩
+
+theorem foreign_set_step (s : TdfSt) (b : BlkArg) (now : Int) (flen : Nat) (hty : b.typ ≠ 0)
+    (hinv : ForeignInv s.nEntries flen s.entries) :
+    ∃ flen', ForeignInv (setBlock s b now).1.nEntries flen' (setBlock s b now).1.entries := by
+  unfold setBlock
+  split
+  · exact foreign_replace_step s b none now flen hty hinv
+  · exact foreign_add_step s b defaultComment now flen hty hinv
+
+/-- the operations the table-level statements speak about: everything but re-entering (which parses bytes), on real block types -/
+def TableOp : Op → Prop
+  | .add b _ _ => b.typ ≠ 0
+  | .remove t _ => t ≠ 0
+  | .replace b _ _ => b.typ ≠ 0
+  | .set b _ => b.typ ≠ 0
+  | .reopen => False
+
+theorem foreign_history (s : TdfSt) (ops : List Op) (hops : ∀ op ∈ ops, TableOp op) (flen : Nat)
+    (hinv : ForeignInv s.nEntries flen s.entries) :
+    ∃ flen', ForeignInv (runOps s ops).nEntries flen' (runOps s ops).entries := by
+  induction ops generalizing s flen with
+  | nil => exact ⟨flen, hinv⟩
+  | cons op ops ih =>
+    have hop := hops op (by simp)
+    have hstep : ∃ f1, ForeignInv (step s op).1.nEntries f1 (step s op).1.entries := by
+      cases op with
+      | add b c now => exact foreign_add_step s b c now flen hop hinv
+      | remove t now => exact foreign_remove_step s t now flen hop hinv
+      | replace b c now => exact foreign_replace_step s b c now flen hop hinv
+      | set b now => exact foreign_set_step s b now flen hop hinv
+      | reopen => exact absurd hop (by simp [TableOp])
+    obtain ⟨f1, h1⟩ := hstep
+    exact ih (step s op).1 (fun o ho => hops o (by simp [ho])) f1 h1
+
 end Tdf
